@@ -242,7 +242,20 @@ def op_rank_graph(job):
         finally:
             if inject is not None:
                 CR.random = saved_random
-        out.append({'combos': [list(c) for c in combos],
+        lib = None
+        if job.get('libscores'):
+            from scipy.stats import pearsonr
+            from sklearn.metrics import adjusted_mutual_info_score
+            import warnings
+            lib = {}
+            rank = {c: {v: i for i, v in enumerate(sorted(set(job['frame'][c])))} for c in cols}
+            code = {c: np.array([rank[c][v] for v in job['frame'][c]]) for c in cols}
+            with warnings.catch_warnings():
+                warnings.simplefilter('ignore')
+                for a in cols:
+                    for b_ in cols:
+                        lib[a + '\x00' + b_] = [float(pearsonr(code[a], code[b_])[0]), float(adjusted_mutual_info_score(code[a], code[b_]))]
+        out.append({'lib': lib, 'combos': [list(c) for c in combos],
                     'trip': [[t[0], t[1], float(t[2])] for t in res.triplet_scores],
                     'cap_after': int(args.combination_number_upper_bound)})
     return out
